@@ -223,6 +223,8 @@ class Chain(Part):
             "depth": st.integers(0, 3),
             "internal": st.booleans(),
             "filler": st.booleans(),
+            # a macro that uses itself: the same call site several times
+            "recursive": st.sampled_from([0, 0, 0, 1, 2, 3, 5]),
             "cls": st.sampled_from(FAIL_CLASSES),
             "site": st.sampled_from(sorted(FAIL_SITES)),
             "leads": st.lists(st.sampled_from(LEADS), min_size=4,
@@ -245,6 +247,24 @@ class Chain(Part):
         inner = FAIL_SITES[case["site"]].format(lead=case["leads"][0],
                                                 cls=case["cls"])
         fail_expr = expr_of(case["site"], case["cls"])
+        if case.get("recursive"):
+            r = case["recursive"]
+            call = "load: tree.pt"
+            tree = ("<ul>" + case["leads"][1] +
+                    '<li tal:condition="n == 0">' + inner + "</li>"
+                    '<li tal:define="n n - 1" tal:condition="n >= 0" '
+                    'metal:use-macro="' + call + '">x</li></ul>')
+            main = ("<html>" + case["leads"][2] + '<body tal:define="n %d" '
+                    'metal:use-macro="%s">x</body></html>' % (r, call))
+            files = [["main.pt", main, [(call, main.index(call))]],
+                     ["tree.pt", tree,
+                      [(fail_expr, tree.index(fail_expr))] +
+                      [(call, tree.index(call))] * r]]
+            if case["xml"]:
+                for f in files:
+                    f[1] = '<?xml version="1.0"?>\n' + f[1]
+                    f[2] = [(e, o + 22) for e, o in f[2]]
+            return files
         if case["internal"]:
             # the failing markup lives in a macro of the same template
             body = ('<div><tal:block condition="False">'
@@ -288,10 +308,13 @@ class Chain(Part):
         return out
 
     def nontrivial(self, case):
-        return case["depth"] >= 1 or case["internal"]
+        return case["depth"] >= 1 or case["internal"] or \
+            bool(case.get("recursive"))
 
     def labels(self, case):
         yield "depth%d" % case["depth"]
+        if case.get("recursive"):
+            yield "recursive"
         if case["internal"]:
             yield "internal_macro"
         if case.get("filler") and case["depth"] >= 1 and \
